@@ -125,6 +125,7 @@ type vChainRun struct {
 	deep       int  // the first `deep` handlers may call Next() twice, the others at most once
 	share      *vChainRun
 	refBody    []byte // reference run: what must reach the client, in order
+	copy       bool   // job parameter copy=1: handlers write with io.Copy from a plain reader
 }
 
 func (r *vChainRun) ev(e int) { r.events = append(r.events, e) }
@@ -213,14 +214,23 @@ func (r *vChainRun) body(i int, c Context) string {
 		c.Request().Request = c.Request().Request.WithContext(nc)
 		r.ctx = nc
 	}
+	write := func(t string) {
+		if r.copy {
+			// the body is streamed with io.Copy from a plain reader (a file, an upstream response): the route an
+			// io.ReaderFrom fast path takes; the underlying spy is an io.ReaderFrom like net/http's own writer
+			_, _ = io.Copy(c.ResponseWriter(), &vPlainReader{data: []byte(t)})
+			return
+		}
+		_, _ = c.ResponseWriter().Write([]byte(t))
+	}
 	if b.pre {
-		_, _ = c.ResponseWriter().Write([]byte("p"))
+		write("p")
 	}
 	for k := 0; k < b.nNext; k++ {
 		c.Next()
 	}
 	if b.post {
-		_, _ = c.ResponseWriter().Write([]byte("q"))
+		write("q")
 	}
 	if b.cancel && !r.cancelled {
 		r.cancelled = true
@@ -263,6 +273,7 @@ func VH_C03_chain() {
 	impl.withCancel = vx.ParamInt("cancel") >= 1
 	impl.withSwap = vx.ParamInt("cancel") == 2
 	impl.deep = vx.ParamInt("deep")
+	impl.copy = vx.ParamInt("copy") == 1
 	ref := &vChainRun{b: impl.b, drawn: impl.drawn, share: impl}
 
 	f := NewWithLogger(io.Discard)
